@@ -58,7 +58,7 @@ def cases(tier, seed):
 
 def variant_names():
     return ["base", "flx_shape", "flx_values", "z", "u", "v", "Kx", "Ky", "Kz", "domain", "levels_scalar", "levels_list", "levels_reordered",
-            "modes", "meas_pt", "bg", "analytic", "halo_none", "halo_resolved", "halo_zero", "halo_other", "precision", "dispersion",
+            "modes", "meas_pt", "bg", "analytic", "halo_none", "halo_resolved", "halo_zero", "halo_other", "halo_same_pads", "halo_other_py", "halo_other_px", "precision", "dispersion",
             "const_numeric", "const_analytic"]
 
 
@@ -109,6 +109,12 @@ def build(name):
         r["halo"] = 0.0
     elif name == "halo_other":
         r["halo"] = 33.0
+    elif name == "halo_same_pads":    # dx = 10, dy = 8: 23 m pads by (2, 2) cells like the base's 20 m (same padded problem)
+        r["halo"] = 23.0
+    elif name == "halo_other_py":     # 24.5 m: (2, 3) cells - the same pad in x, another in y
+        r["halo"] = 24.5
+    elif name == "halo_other_px":     # 18 m: (1, 2) cells - another pad in x, the same in y
+        r["halo"] = 18.0
     elif name == "precision":
         r["precision"] = "single"
     elif name == "dispersion":
@@ -118,7 +124,7 @@ def build(name):
     return r
 
 
-EQUIV = {"flx_values": "base", "halo_resolved": "halo_none"}  # same result as ..., hit optional
+EQUIV = {"flx_values": "base", "halo_resolved": "halo_none", "halo_same_pads": "base"}  # same result as ..., hit optional
 
 
 def flat(res):
@@ -514,6 +520,20 @@ def _probe(nm, d, ref, viol, ctx, counters):
         counters["probe_hits" if ("get", "hit") in ev else "probe_misses"] = counters.get("probe_hits" if ("get", "hit") in ev else "probe_misses", 0) + 1
         if not same(res, ref):
             viol.append(dict(what="damaged_entry_is_returned", request=nm, events=ev, **ctx))
+        # recovery: once the damaged entry has been treated as a miss and the request solved again, the identical request that
+        # follows must be served from the cache (no second solve) - every third probe, and always at the ends of the enumeration
+        if ("get", "hit") not in ev and (counters["probes"] % 3 == 0 or ctx.get("length") in (0, 1) or ctx.get("length") == (ctx.get("full") or 0) - 1):
+            try:
+                res2, ev2, sw2 = M.solve(build(nm))
+            except BaseException as e:  # noqa
+                viol.append(dict(what="damaged_entry_is_fatal", request=nm, exc=f"second request: {type(e).__name__}: {str(e)[:120]}", **ctx))
+                return
+            counters["recovery_probes"] = counters.get("recovery_probes", 0) + 1
+            if not same(res2, ref):
+                viol.append(dict(what="damaged_entry_is_returned", request=nm, events=ev2, second_request=True, **ctx))
+            elif ("get", "hit") not in ev2 or sw2 or ("put",) in ev2:
+                viol.append(dict(what="identical_request_not_served_from_cache", request=nm, events=ev2, sweeps=sw2,
+                                 after="a damaged entry was found, treated as a miss and the request solved again", **ctx))
     finally:
         M.close()
 
